@@ -10,6 +10,7 @@
   The thresholds baked into `calc_sdm` appear as hypotheses exactly where the proofs need them.
 -/
 import ShelxModel.C13
+import ShelxModel.Extracted.C13Src
 import Mathlib.Tactic.Ring
 import Mathlib.Tactic.Linarith
 import Mathlib.Tactic.NormNum
@@ -206,6 +207,20 @@ theorem recipBound_orthogonal {sq : K → K} (hs : IsSqrt sq) {a b c : K} (ha : 
     have e : |v.z| * c * (|v.z| * c) = v.z * v.z * (c * c) := by rw [← abs_mul_abs_self v.z]; ring
     rw [e]; simp only [quadForm, Cell.ofLengths]
     nlinarith [mul_self_nonneg (v.x * a), mul_self_nonneg (v.y * b)]
+
+/-! ### the tie to the traced source (`ShelxModel/Extracted/C13Src.lean`, regenerated on every run) -/
+
+/-- `SDM.__init__` + `SDM.vector_length` of the working tree, executed on symbolic numbers by the tracing translator
+    (extract/trace_c13.py), is the model's `vectorLength` on `Cell.ofLengths` — for all cells and all vectors, however
+    the code spells or pre-computes the quadratic form (`ring` under the square root). -/
+theorem src_vectorLength (sq : K → K) (a b c ca cb cg x y z : K) :
+    Src.vectorLength sq a b c ca cb cg x y z = vectorLength sq (Cell.ofLengths a b c ca cb cg) ⟨x, y, z⟩ := by
+  unfold Src.vectorLength vectorLength quadForm Cell.ofLengths
+  congr 1
+  ring
+
+example : Src.vectorLength (fun q : ℚ => q) 2 3 4 0 0 (1/2) 1 1 0 = 19 := by
+  unfold Src.vectorLength; norm_num
 
 /-! ### the bond criterion -/
 
